@@ -82,7 +82,14 @@ fn all_writers_reopen_case(ctx: &mut CaseCtx) -> CaseResult {
     let modes = [WMode::Direct, WMode::BufDont(30), WMode::BufDont(8192), WMode::SupportCapture];
     let m_primary = *rng.pick(&modes);
     let m_aux = *rng.pick(&modes);
-    let mut res = CaseResult::new(format!("all-writers|{}|aux:{}", m_primary.label(), m_aux.label()));
+    // the primary output is a file, or stderr/stdout (nothing is ever addressed to them here):
+    // reopen_output() must reach the additional file writers whatever the primary output is
+    let primary_kind = *rng.pick(&["file", "file", "stderr", "stdout"]);
+    let mut res = CaseResult::new(format!(
+        "all-writers|{primary_kind}:{}|aux:{}",
+        m_primary.label(),
+        m_aux.label()
+    ));
     let dirs = [ctx.dir.join("p"), ctx.dir.join("a")];
     let aux = match flexi_logger::writers::FileLogWriter::builder(
         FileSpec::default().directory(&dirs[1]).basename("aux").suppress_timestamp().suffix("log"),
@@ -97,13 +104,18 @@ fn all_writers_reopen_case(ctx: &mut CaseCtx) -> CaseResult {
             return res;
         }
     };
-    let built = Logger::with(LogSpecification::trace())
+    let lg = Logger::with(LogSpecification::trace())
         .format(flw::fmt_raw)
-        .error_channel(flw::error_channel())
-        .log_to_file(FileSpec::default().directory(&dirs[0]).basename("prim").suppress_timestamp().suffix("log"))
-        .write_mode(m_primary.to_write_mode())
-        .add_writer("aux", Box::new(aux))
-        .build();
+        .error_channel(flw::error_channel());
+    let lg = match primary_kind {
+        "stderr" => lg.log_to_stderr(),
+        "stdout" => lg.log_to_stdout(),
+        _ => lg
+            .log_to_file(FileSpec::default().directory(&dirs[0]).basename("prim").suppress_timestamp().suffix("log"))
+            .write_mode(m_primary.to_write_mode()),
+    };
+    let built = lg.add_writer("aux", Box::new(aux)).build();
+    let writers_in_play: usize = if primary_kind == "file" { 2 } else { 1 };
     let (boxed, handle) = match built {
         Ok(x) => x,
         Err(e) => {
@@ -122,7 +134,7 @@ fn all_writers_reopen_case(ctx: &mut CaseCtx) -> CaseResult {
     let mut reopens = 0u64;
     for round in 0..=rounds {
         for _ in 0..rng.range(1, 12) {
-            let w = rng.usize(2);
+            let w = if writers_in_play == 2 { rng.usize(2) } else { 1 };
             let msg = flw::msg_id(ctx.case, w as u64, seq, rng.usize(40));
             seq += 1;
             let target = if w == 0 { "flmon::c18" } else { "{aux}" };
@@ -130,11 +142,29 @@ fn all_writers_reopen_case(ctx: &mut CaseCtx) -> CaseResult {
             open[w].extend_from_slice(msg.as_bytes());
             open[w].push(b'\n');
         }
-        if round == rounds {
+        // an unbuffered writer has everything in its file as soon as the log call has returned -
+        // also after a re-open
+        for w in 0..2 {
+            let mode = if w == 0 { m_primary } else { m_aux };
+            if (w == 0 && writers_in_play == 1) || !matches!(mode, WMode::Direct | WMode::SupportCapture) {
+                continue;
+            }
+            let got = std::fs::read(&paths[w]).unwrap_or_default();
+            res.count("immediate_reads_of_direct_mode_files", 1);
+            if let Some(d) = flw::diff_bytes(&open[w], &got) {
+                res.violate(
+                    "direct-mode-record-not-in-file",
+                    format!("C18/direct-mode-file-behind/{}-writer/after-{}-reopen", names[w], if round == 0 { "no" } else { "a" }),
+                    format!("the {} file writer writes in {mode:?}: right after the log calls returned its file must hold all records logged since the last reopen_output(): {d}; script {script:?}", names[w]),
+                );
+            }
+        }
+        if round == rounds || res.verdict != Verdict::Held {
             break;
         }
         // take away the current file of one or both writers, then one reopen_output() for all
         let which: Vec<usize> = match rng.below(3) {
+            _ if writers_in_play == 1 => vec![1],
             0 => vec![0],
             1 => vec![1],
             _ => vec![0, 1],
@@ -170,9 +200,9 @@ fn all_writers_reopen_case(ctx: &mut CaseCtx) -> CaseResult {
         }
     }
     handle.shutdown();
-    let facts = format!("{}+aux:{}", m_primary.label(), m_aux.label());
+    let facts = format!("{primary_kind}:{}+aux:{}", m_primary.label(), m_aux.label());
     if res.verdict == Verdict::Held {
-        for w in 0..2 {
+        for w in (2 - writers_in_play)..2 {
             let got = std::fs::read(&paths[w]).unwrap_or_default();
             res.count("files_compared", 1);
             if let Some(d) = flw::diff_bytes(&open[w], &got) {
